@@ -147,7 +147,9 @@ theorem no_misdelivery (me : Node) (cfg : NodeCfg) (p : Packet)
   · split at h <;> cases h
   · split at h
     · split at h
-      · split at h <;> cases h
+      · split at h
+        · cases h
+        · split at h <;> cases h
       · split at h
         · split at h <;> cases h
         · simp [hl] at h
